@@ -243,6 +243,11 @@ def sec_phase_by(ctx, rng, case):
     ctx.sample(wit)
 
 
+# equal_up_to_global_phase documents its atol as "the minimum absolute tolerance, see np.isclose()": the comparison of
+# matrices is np.isclose-style with numpy's default rtol=1e-5 on top, so entries of magnitude <= 1 may differ by atol + 1e-5.
+_ISCLOSE_RTOL = 1.5e-5
+
+
 def _op_pool(rng, cirq, nq=3):
     """random operation on a subset of nq qubits, with its catalogue matrix on those qubits"""
     specs = [s for s in _S["core"] if s.shape and all(d == 2 for d in s.shape) and len(s.shape) <= 2 and "matrix" not in s.tags]
@@ -275,11 +280,31 @@ def sec_predicates(ctx, rng, case):
                 p2 = (p1[0] + float(rng.choice([1e-9, 1e-4, 1e-2])), p1[1])
             else:
                 p2 = (p1[0], p1[1] + float(rng.choice([0.5, 1.0, 2.0, 1e-9])))
+    if rng.random() < 0.2:
+        # nearly commuting pairs: one float parameter made tiny, so that the commutator lands near the tolerances asked for
+        which = int(rng.integers(2))
+        pp = list(p1 if which == 0 else p2)
+        idx = [i for i, v in enumerate(pp) if isinstance(v, float)]
+        if idx:
+            i = idx[int(rng.integers(len(idx)))]
+            pp[i] = float(rng.choice([-1, 1])) * float(10 ** rng.uniform(-8.5, -1.5))
+            if which == 0:
+                p1 = tuple(pp)
+            else:
+                p2 = tuple(pp)
     a = s1.make(p1).on(*[qs[w] for w in w1])
     b = s2.make(p2).on(*[qs[w] for w in w2])
     A = L.embed(s1.ref(p1), w1, (2,) * nq)
     B = L.embed(s2.ref(p2), w2, (2,) * nq)
     wit = dict(a=(s1.name, p1, w1), b=(s2.name, p2, w2))
+    # "all tolerances": atol is documented as the bound on every entry of AB - BA
+    t = float(rng.choice([1e-8, 1e-8, 1e-7, 1e-6, 1e-5, 1e-4, 1e-3]))
+    ct = cirq.commutes(a, b, atol=t, default=None)
+    dcomm = L.maxdiff(A @ B, B @ A)
+    if ct is True:
+        ctx.check(dcomm <= 1.05 * t + 1e-10, "commutes(atol)=>commutator<=atol", "C08:commutes-atol",
+                  "cirq.commutes(atol=%g) says True but max|AB-BA| = %.3g" % (t, dcomm), **wit)
+    ctx.event("commutes-atol:" + ("near" if t / 30 < dcomm < t * 3000 else "far") + (":true" if ct is True else ":nottrue"))
     comm_exact = L.allclose(A @ B, B @ A, 1e-6)
     c = cirq.commutes(a, b, default=None)
     if c is True:
@@ -306,10 +331,10 @@ def sec_predicates(ctx, rng, case):
                           "approx_eq(atol=%g) but matrices differ by %.3g" % (atol, L.maxdiff(A, B)), atol=atol, **wit)
         for atol in (1e-8, 1e-3):
             if cirq.equal_up_to_global_phase(a, b, atol=atol):
-                ctx.check(L.phase_diff(A, B) <= 100 * atol + 1e-9, "equal_up_to_global_phase=>phase-equal", "C08:eq-up-to-phase-unsound",
+                ctx.check(L.phase_diff(A, B) <= 100 * atol + _ISCLOSE_RTOL, "equal_up_to_global_phase=>phase-equal", "C08:eq-up-to-phase-unsound",
                           "equal_up_to_global_phase(atol=%g) but matrices differ up to phase by %.3g" % (atol, L.phase_diff(A, B)), atol=atol, **wit)
             if w1 == w2 and cirq.equal_up_to_global_phase(a.gate, b.gate, atol=atol):
-                ctx.check(L.phase_diff(A, B) <= 100 * atol + 1e-9, "equal_up_to_global_phase=>phase-equal", "C08:eq-up-to-phase-unsound-gate", "", atol=atol, **wit)
+                ctx.check(L.phase_diff(A, B) <= 100 * atol + _ISCLOSE_RTOL, "equal_up_to_global_phase=>phase-equal", "C08:eq-up-to-phase-unsound-gate", "", atol=atol, **wit)
     ctx.distinct((s1.name, _pk(p1), tuple(w1), s2.name, _pk(p2), tuple(w2)), nontrivial=not (L.allclose(A, np.eye(8), 1e-6) or L.allclose(B, np.eye(8), 1e-6)))
     ctx.sample({"a": (s1.name, _pk(p1), w1), "b": (s2.name, _pk(p2), w2), "commutes": str(c)})
 
@@ -476,7 +501,7 @@ def sec_interchange(ctx, rng, case):
             ctx.check(L.maxdiff(A, B) <= 100 * atol + 1e-9, "approx_eq=>close-matrices", "C08:approx-eq-unsound:exchanged-qubits",
                       "approx_eq(atol=%g) but matrices differ by %.3g" % (atol, L.maxdiff(A, B)), atol=atol, **wit)
         if cirq.equal_up_to_global_phase(a, b, atol=atol):
-            ctx.check(L.phase_diff(A, B) <= 100 * atol + 1e-9, "equal_up_to_global_phase=>phase-equal", "C08:eq-up-to-phase-unsound:exchanged-qubits",
+            ctx.check(L.phase_diff(A, B) <= 100 * atol + _ISCLOSE_RTOL, "equal_up_to_global_phase=>phase-equal", "C08:eq-up-to-phase-unsound:exchanged-qubits",
                       "equal_up_to_global_phase(atol=%g) but matrices differ up to phase by %.3g" % (atol, L.phase_diff(A, B)), atol=atol, **wit)
     # a circuit-level consequence: two circuits that compare equal have the same matrix
     ca, cb = cirq.Circuit(a), cirq.Circuit(b)
